@@ -720,7 +720,8 @@ void ICMPv6::try_parse_extensions(InputMemoryStream& stream) {
 }
 
 bool ICMPv6::are_extensions_allowed() const {
-    return type() == TIME_EXCEEDED;
+    // RFC 4884, section 4.4: Destination Unreachable and Time Exceeded
+    return type() == DEST_UNREACHABLE || type() == TIME_EXCEEDED;
 }
 
 // ********************************************************************
